@@ -724,6 +724,26 @@ def scopes():
                                      ('while', v3, ('block', [decl('x'), SET(x, v3), SET(v3, NUM(0)), SET(R(1), x)]))],
              setup + [('if', v3, ('block', [SET(T[0], NUM(3)), SET(R(0), T[0])]), ('block', [SET(T[1], NUM(4)), SET(R(0), T[1])])),
                       ('while', v3, ('block', [SET(T[2], v3), SET(v3, NUM(0)), SET(R(1), T[2])]))])
+        # initialisers of locals go through a parser table of their own (parse_expr_init_value): every prefix / postfix
+        # operator and a few operators in an initialiser, against the written-out twin
+        post = [SET(R(0), x), SET(R(1), v1), SET(R(2), v2)]
+        postT = [SET(R(0), T[0]), SET(R(1), v1), SET(R(2), v2)]
+        for nm, text, tw in [
+                ("predec", "--v1", [('expr', ('pre', '--', v1)), SET(T[0], v1)]),
+                ("postdec", "v1--", [SET(T[0], v1), ('expr', ('post', '--', v1))]),
+                ("preinc", "++v1", [('expr', ('pre', '++', v1)), SET(T[0], v1)]),
+                ("postinc", "v1++", [SET(T[0], v1), ('expr', ('post', '++', v1))]),
+                ("neg", "-v1", [SET(T[0], ('neg', v1))]),
+                ("bnot", "~v1", [SET(T[0], ('bnot', v1))]),
+                ("sum-predec", "v1 + --v2", [('expr', ('pre', '--', v2)), SET(T[0], ('bin', '+', v1, v2))]),
+                ("sum-postinc", "v1 + v2++", [SET(T[0], ('bin', '+', v1, v2)), ('expr', ('post', '++', v2))]),
+                ("mask-shift", "(v1 & 3) << 1", [SET(T[0], ('bin', '<<', ('bin', '&', v1, NUM(3)), NUM(1)))]),
+                ("sub", "v1 - v2", [SET(T[0], ('bin', '-', v1, v2))]),
+                ("or-xor", "v1 | v2 ^ 1", [SET(T[0], ('bin', '|', v1, ('bin', '^', v2, NUM(1))))]),
+                ("element", "a0[X]", [SET(T[0], ('idx', 'a0', X))]),
+                ("tern", "v3 ? v1 : v2", [SET(T[0], ('tern', v3, v1, v2))])]:
+            emit("init-" + nm, setup + [SET(('idx', 'a0', NUM(2)), NUM(77)), ('block', [decl('x', text)] + post)],
+                 setup + [SET(('idx', 'a0', NUM(2)), NUM(77))] + tw + postT)
         # a parameter named like a global, a local named like a parameter's caller variable
         f1 = ("void", "store", [(uc, "v1"), (uc, "k")], [('raw', uc + " x;"), SET(x, ('bin', '+', v1, VAR('k'))), SET(R(0), x)], False)
         emit("param-shadows-global", setup + [('expr', ('call', 'store', [v2, NUM(3)])), SET(R(1), v1)],
